@@ -80,6 +80,12 @@ fn sweeps(tier: Tier) -> Vec<(&'static str, Strings)> {
     for cfg in &CONFIGS[1..] {
         v.push((if *cfg == "symbolic" { "symbolic-primed" } else { "words-primed" }, Strings::new(&alphabet(cfg, false), 3)));
     }
+    // character-class completeness (see FRAGMENTS_EXTRA), built-ins and the word configuration
+    for cfg in ["builtin", "words"] {
+        let mut a = fragments_wide();
+        a.extend(extra_fragments(cfg));
+        v.push((cfg, Strings::new(&a, tier.pick(3, 4))));
+    }
     // deeper over the small alphabet for the registered-operator configurations
     for cfg in &CONFIGS[1..] {
         v.push((*cfg, Strings::new(&alphabet(cfg, true), tier.pick(5, 6))));
